@@ -35,6 +35,13 @@ fn sockaddr(spec: &str) -> SocketAddr {
 }
 
 async fn run_case(case: Vec<String>) -> String {
+    if case[2] == "Q" {
+        // requests: an INVITE (with whatever Content-Length the application had put there) answered with a failure, through the client
+        // transaction harness; its output lists the header lines of the INVITE and of every ACK on the wire
+        let mut u = vec![case[0].clone(), "c07".into()];
+        u.extend(case[3..].iter().cloned());
+        return crate::tsx_client::run_case(u, true).await;
+    }
     // id c09 transport src vias code reason timestamp presetcl conn
     let conn_based = case[2] == "C";
     let source = sockaddr(&case[3]);
